@@ -146,6 +146,7 @@ class LeanStatus:
         self.driver_msg = ""
         self.driver_crashed = False  # the driver process died / timed out while answering (infrastructure, not a verdict)
         self.infra = ""  # non-empty: the toolchain itself failed (no source location in the build output)
+        self.tables_present: Optional[dict] = None
         self.leanchecker: Optional[str] = None
 
     @property
@@ -303,6 +304,18 @@ def prepare_lean(prop: str, theorems: Sequence[str], tier: str, extra_targets: S
         if st.build_ok:
             audit_axioms(prop, module, theorems, st)
         grep_forbidden(st)
+        # informational, never a verdict: are all generated tables present and non-empty on this tree? (a decision table the
+        # translator could not follow is `none`, and its theorems hold vacuously - the evidence must say so)
+        try:
+            rc2, out2 = _run(["lake", "build", "PEval.Properties.TablesPresent"], LEAN_DIR, timeout=600)
+            m = re.search(r"TABLES-PRESENT total=(\d+) missing=\[(.*?)\]", out2)
+            if m is None and rc2 == 0:
+                rc3, out3 = _run(["lake", "env", "lean", "PEval/Properties/TablesPresent.lean"], LEAN_DIR, timeout=600)
+                m = re.search(r"TABLES-PRESENT total=(\d+) missing=\[(.*?)\]", out3)
+            st.tables_present = ({"total": int(m.group(1)), "missing": [x.strip() for x in m.group(2).split(",") if x.strip()]}
+                                 if m else {"total": None, "missing": None, "note": "status line not found"})
+        except Exception as e:  # noqa: BLE001
+            st.tables_present = {"total": None, "missing": None, "note": f"{type(e).__name__}"}
         if tier == "thorough" and st.build_ok:
             rc, out = _run(["lake", "env", "leanchecker", module], LEAN_DIR, timeout=3600)
             st.leanchecker = "ok" if rc == 0 else "FAILED: " + out[-500:]
